@@ -32,7 +32,7 @@ def sort_case(draw, tier):
     maxrows = 8 if tier == "quick" else 24
     nf = draw(st.integers(1, 4))
     hdr = draw(gen.header(n=nf))
-    p = draw(gen.twinned_pool(KEYCOL, 2, 4))
+    p = draw(gen.twinned_pool(KEYCOL, 2, 4, seq_twins=True))
     idc = draw(st.one_of(st.none(), st.integers(0, nf - 1))) if nf > 1 else None
     cols = [st.sampled_from(p) for _ in range(nf)]
     tbl = draw(gen.table(hdr, cols, max_rows=maxrows, ragged=draw(st.booleans()), id_col=idc))
@@ -158,7 +158,7 @@ def merge_case(draw, tier):
     maxrows = 6 if tier == "quick" else 14
     nt = draw(st.integers(1, 3))
     same_hdr = draw(st.booleans())
-    p = draw(gen.pool(KEYCOL, 2, 5))
+    p = draw(gen.twinned_pool(KEYCOL, 2, 5, seq_twins=True))
     names = ["k", "j", "a", "b", "c"]
     tables = []
     base_extra = draw(st.lists(st.sampled_from(names[2:]), max_size=2, unique=True))
